@@ -20,6 +20,9 @@ func H_c19() {
 	for _, cl := range verifSecretClasses {
 		for _, s := range verifHoles("L0", cl) {
 			verifAssume(!strings.HasPrefix(s, "$"))
+			if verifParam("nonEmpty") == "yes" {
+				verifAssume(s != "")
+			}
 		}
 	}
 	t1, ok := verifRedactLine(verifLine("L0"))
